@@ -27,6 +27,17 @@ type tierCfg struct {
 	Fuzz    time.Duration // native fuzzing budget per fuzz target (thorough only)
 }
 
+type tierJSON struct {
+	Shards   int `json:"shards"`
+	Checks   int `json:"checks"`
+	TimeoutS int `json:"timeout_s"`
+	FuzzS    int `json:"fuzz_s"`
+}
+
+func (t tierJSON) cfg() tierCfg {
+	return tierCfg{Shards: t.Shards, Checks: t.Checks, Timeout: time.Duration(t.TimeoutS) * time.Second, Fuzz: time.Duration(t.FuzzS) * time.Second}
+}
+
 type propCfg struct {
 	Pkg      string
 	Race     bool
@@ -38,14 +49,33 @@ type propCfg struct {
 	Assume   []string
 }
 
+// cfg reads harness/<pkg>/prop.json (one file per property package, so that packages can be
+// developed independently).
 func cfg(id string) (propCfg, bool) {
-	c, ok := props[id]
-	if !ok {
+	var c propCfg
+	if !regexp.MustCompile(`^C[0-9]{2}$`).MatchString(id) {
 		return c, false
 	}
-	if c.Pkg == "" {
-		c.Pkg = strings.ToLower(id)
+	c.Pkg = strings.ToLower(id)
+	b, err := os.ReadFile(filepath.Join(verifRoot(), "harness", c.Pkg, "prop.json"))
+	if err != nil {
+		return c, false
 	}
+	var j struct {
+		Race     bool     `json:"race"`
+		Level    string   `json:"level"`
+		Rule     string   `json:"rule"`
+		Assume   []string `json:"assumptions"`
+		Fuzz     []string `json:"fuzz_targets"`
+		Quick    tierJSON `json:"quick"`
+		Thorough tierJSON `json:"thorough"`
+	}
+	if err := json.Unmarshal(b, &j); err != nil {
+		fmt.Printf("prop.json of %s: %v\n", id, err)
+		return c, false
+	}
+	c.Race, c.Level, c.Rule, c.Assume, c.Fuzz = j.Race, j.Level, j.Rule, j.Assume, j.Fuzz
+	c.Quick, c.Thorough = j.Quick.cfg(), j.Thorough.cfg()
 	if c.Level == "" {
 		c.Level = "exploration"
 	}
